@@ -32,7 +32,7 @@ from vf.props import c14 as B
 
 PROP_ID = 'C34'
 LEVEL = 'exploration'
-BUDGET = {'quick': 4000, 'thorough': 150000}
+BUDGET = {'quick': 3000, 'thorough': 32000}
 RULE = (
     'Hypothesis draws 1-3 parameters from {m, n, run}: integer lists (ranges '
     'with step, 1-4 values, default zero-padded template or a custom one), '
